@@ -285,7 +285,66 @@ def rand_syn(rng, terms, nnt=None, max_alts=3, max_len=3, p_empty=0.2, p_error=0
                     continue
                 bd[pos] = (0, nts[i])
             syn[k] = (hd, bd, act, aid2)
+    if len(syn) > 2 and rng.random() < 0.2:
+        # declare a non-terminal in two separate places: `A : x ; B : y ; A : z ;`
+        k = rng.randrange(1, len(syn))
+        item = syn.pop(k)
+        syn.insert(rng.randint(k, len(syn)), item)
     return syn
+
+
+def conflict_rich_syn(rng, terms):
+    """grammars in which three or more actions compete for one (state, terminal)"""
+    t = [x for x in terms]
+    rng.shuffle(t)
+    a, b = t[0], t[1 % len(t)]
+    c = t[2 % len(t)]
+    k = rng.random()
+    aid = [0]
+
+    def act():
+        if rng.random() < 0.6:
+            aid[0] += 1
+            return (1, aid[0])
+        return (0, 0)
+    if k < 0.3:
+        # ambiguous expression grammar with several operators: shift/reduce/reduce rows
+        ops = t[1:1 + rng.randint(1, 3)] or [b]
+        syn = [("S0", [(0, "S0"), op, (0, "S0")]) for op in ops] + [("S0", [a])]
+        if rng.random() < 0.5:
+            syn.append(("S0", [(0, "S0"), (0, "S0")]))
+        rng.shuffle(syn)
+    elif k < 0.6:
+        # several non-terminals deriving the same string, used in an order different from their declaration
+        n = rng.randint(2, 4)
+        nts = ["N%d" % i for i in range(1, n + 1)]
+        use = list(nts)
+        rng.shuffle(use)
+        syn = [("S0", [(0, x), b]) for x in use]
+        decl = list(nts)
+        rng.shuffle(decl)
+        syn += [(x, [a]) for x in decl]
+        if rng.random() < 0.5:
+            syn.append(("S0", [a, b]))
+    elif k < 0.8:
+        # dangling else with extra ambiguity
+        syn = [("S0", [a, (0, "S0")]), ("S0", [a, (0, "S0"), b, (0, "S0")]), ("S0", [c]), ("S0", [(0, "S0"), b])]
+        rng.shuffle(syn)
+    else:
+        # reduce, shift, reduce in one row
+        syn = [("S0", [(0, "N1"), b]), ("S0", [(0, "N2")]), ("S0", [(0, "N3"), b]), ("N2", [a, b]), ("N1", [a]), ("N3", [a])]
+        order = list(range(len(syn)))
+        rng.shuffle(order)
+        syn = [syn[i] for i in order]
+    # S0 must be declared first (start symbol): stable-sort S0 alternatives to the front half of the time only if needed
+    if syn[0][0] != "S0":
+        i = next(i for i, p in enumerate(syn) if p[0] == "S0")
+        syn.insert(0, syn.pop(i))
+    out = []
+    for h, bd in syn:
+        ac, ai = act()
+        out.append((h, bd, ac, ai))
+    return out
 
 
 def tokens_of_lex(lex):
